@@ -515,7 +515,7 @@ class BuiltinMixin:
     # ------------------------------------------------------------------ spec-only functions (contract language)
     SPEC_ONLY = {"card", "implies", "iff", "forall", "exists", "subset", "set_eq", "old", "is_class", "keys_of",
                  "ty_is", "same_class", "unchanged", "fresh_obj", "no_effects", "effects", "attr", "sel", "tuple2", "sval", "ival",
-                 "local", "dict_values", "word_only", "digit_start", "box_str", "tail", "type_arg", "type_args", "sub_accepts", "attr_set", "accepts", "matches", "is_json", "as_set_of", "distinct", "cls_name", "clsattr", "written_text", "opened_path", "ext", "box_bool", "tl_get", "raw_tq_ok", "is_blank", "attr_of", "eq_str", "mro_of", "as_dict", "as_list", "as_set", "seq_len", "dict_len", "truthy", "dict_get", "pyeval_str", "at", "is_none"}
+                 "local", "attr_bool", "dict_values", "word_only", "digit_start", "box_str", "tail", "type_arg", "type_args", "sub_accepts", "attr_set", "accepts", "matches", "is_json", "as_set_of", "distinct", "cls_name", "clsattr", "written_text", "opened_path", "ext", "box_bool", "tl_get", "raw_tq_ok", "is_blank", "attr_of", "eq_str", "mro_of", "as_dict", "as_list", "as_set", "seq_len", "dict_len", "truthy", "dict_get", "pyeval_str", "at", "is_none"}
     SPEC_CONSTS = {}
 
     def bi_card(self, node, st, fr):
@@ -605,7 +605,10 @@ class BuiltinMixin:
                     st.facts.append(z3.ForAll([jj], z3.Implies(rng, sub(f))))
                 if combine == "all":
                     return SV(z3.ForAll([jj], z3.Implies(rng, sub(body))), "bool")
-                return SV(z3.Exists([jj], z3.And(rng, sub(body))), "bool")
+                ex = z3.Exists([jj], z3.And(rng, sub(body)))
+                # logically redundant ground candidates (last / first index of the range) as witness terms for e-matching
+                at_ = lambda k_: z3.And(lo <= k_, k_ < hi, z3.substitute(body, (jv, k_)))
+                return SV(z3.Or(ex, at_(hi - 1), at_(lo)), "bool")
             if coll.pt in ("pylist", "pydict") or (coll.py and coll.py[0] == "items"):
                 vals = []
                 for it in self.py_items(coll):
@@ -710,7 +713,7 @@ class BuiltinMixin:
 
     def bi_seq_len(self, node, st, fr):
         x = self.ev(node.args[0], st, fr)
-        return SV(self.voc.slen(self.box(x)), "int")
+        return SV(self.ite_map(self.box(x), self.voc.slen), "int")
 
     def bi_dict_len(self, node, st, fr):
         x = self.ev(node.args[0], st, fr)
@@ -736,7 +739,7 @@ class BuiltinMixin:
         if xs.py and xs.py[0] == "items" and z3.is_int_value(isimp) and 0 <= isimp.as_long() < len(xs.py[1]):
             return xs.py[1][isimp.as_long()]
         x = self.box(xs)
-        return SV(self.voc.sat(x, i), "any")
+        return SV(self.ite_map(x, lambda t_: self.voc.sat(t_, i)), "any")
 
     def bi_pyeval_str(self, node, st, fr):
         x = self.unbox(self.ev(node.args[0], st, fr), "str")
@@ -950,3 +953,8 @@ class BuiltinMixin:
         d = self.ev(node.args[0], st, fr)
         dd = SV(self.box(d), "dict")
         return self.as_seq(SV(None, "dvalues", py=("dvalues", dd, None)), st, fr, node)
+
+    def bi_attr_bool(self, node, st, fr):
+        obj = self.ev(node.args[0], st, fr)
+        r = self.read_attr(obj, ast.literal_eval(node.args[1]), st, fr)
+        return self.unbox(SV(self.box(r), "any"), "bool")
